@@ -1402,6 +1402,143 @@ def desugar_counters(index):
     return done
 
 
+def desugar_setdefault_identity(index):
+    """`got = D.setdefault(K, E)` followed by `if got is not E: BODY [else: ELSE]` where E is a local bound once, in this function, to a
+    freshly built object (a tuple / list display or a constructor call): `got is not E` holds exactly when K was already in D, and only
+    then nothing was stored.  Rewritten as `if K in D: got = D[K]; BODY` / `else: D[K] = E; got = E; ELSE`."""
+    import copy
+    done = {}
+    for f in index.all_functions():
+        fresh = {}
+        for n in ast.walk(f.node):
+            if isinstance(n, ast.Assign) and len(n.targets) == 1 and isinstance(n.targets[0], ast.Name):
+                fresh.setdefault(n.targets[0].id, []).append(n.value)
+        k = 0
+
+        def walk(stmts):
+            nonlocal k
+            i = 0
+            while i < len(stmts):
+                st = stmts[i]
+                for fld in ("body", "orelse", "finalbody"):
+                    b = getattr(st, fld, None)
+                    if isinstance(b, list) and b and isinstance(b[0], ast.stmt) and not isinstance(st, (ast.FunctionDef, ast.ClassDef)):
+                        walk(b)
+                nxt = stmts[i + 1] if i + 1 < len(stmts) else None
+                # `D.setdefault(K, E)` as a statement: `if K not in D: D[K] = E` (E is evaluated either way; it must only read)
+                if isinstance(st, ast.Expr) and isinstance(st.value, ast.Call) and isinstance(st.value.func, ast.Attribute) and \
+                        st.value.func.attr == "setdefault" and len(st.value.args) == 2 and not st.value.keywords and \
+                        _simple_arg(st.value.func.value) and not any(isinstance(x, ast.Call) and not (isinstance(x.func, ast.Name) and x.func.id in ("id", "len", "tuple"))
+                                                                    for x in ast.walk(st.value.args[1])) and \
+                        not any(isinstance(x, ast.Call) and not (isinstance(x.func, ast.Name) and x.func.id in ("id", "len"))
+                                for x in ast.walk(st.value.args[0])):
+                    D, K, E = st.value.func.value, st.value.args[0], st.value.args[1]
+                    new = ast.If(test=ast.Compare(left=copy.deepcopy(K), ops=[ast.NotIn()], comparators=[copy.deepcopy(D)]),
+                                 body=[ast.Assign(targets=[ast.Subscript(value=copy.deepcopy(D), slice=copy.deepcopy(K), ctx=ast.Store())], value=E)],
+                                 orelse=[])
+                    ast.copy_location(new, st)
+                    stmts[i] = new
+                    k += 1
+                    i += 1
+                    continue
+                if isinstance(st, ast.Assign) and len(st.targets) == 1 and isinstance(st.targets[0], ast.Name) and isinstance(st.value, ast.Call) and \
+                        isinstance(st.value.func, ast.Attribute) and st.value.func.attr == "setdefault" and len(st.value.args) == 2 and \
+                        not st.value.keywords and isinstance(st.value.args[1], ast.Name) and isinstance(nxt, ast.If):
+                    got, D, K, E = st.targets[0].id, st.value.func.value, st.value.args[0], st.value.args[1].id
+                    vs = fresh.get(E, [])
+                    is_fresh = len(vs) == 1 and (isinstance(vs[0], (ast.Tuple, ast.List, ast.Dict)) or
+                                                 (isinstance(vs[0], ast.Call) and ast.unparse(vs[0].func).split(".")[-1][:1].isupper()))
+                    t = nxt.test
+                    pol = None
+                    if isinstance(t, ast.Compare) and len(t.ops) == 1 and isinstance(t.ops[0], (ast.Is, ast.IsNot)) and \
+                            isinstance(t.left, ast.Name) and isinstance(t.comparators[0], ast.Name) and \
+                            {t.left.id, t.comparators[0].id} == {got, E}:
+                        pol = isinstance(t.ops[0], ast.IsNot)           # True: the body runs when the key was present
+                    if is_fresh and pol is not None and _simple_arg(K) and _simple_arg(D):
+                        present = [ast.Assign(targets=[ast.Name(id=got, ctx=ast.Store())],
+                                              value=ast.Subscript(value=copy.deepcopy(D), slice=copy.deepcopy(K), ctx=ast.Load()))]
+                        absent = [ast.Assign(targets=[ast.Subscript(value=copy.deepcopy(D), slice=copy.deepcopy(K), ctx=ast.Store())],
+                                             value=ast.Name(id=E, ctx=ast.Load())),
+                                  ast.Assign(targets=[ast.Name(id=got, ctx=ast.Store())], value=ast.Name(id=E, ctx=ast.Load()))]
+                        body_p, body_a = (nxt.body, nxt.orelse) if pol else (nxt.orelse, nxt.body)
+                        new = ast.If(test=ast.Compare(left=copy.deepcopy(K), ops=[ast.In()], comparators=[copy.deepcopy(D)]),
+                                     body=present + list(body_p), orelse=absent + list(body_a))
+                        ast.copy_location(new, st)
+                        stmts[i:i + 2] = [new]
+                        k += 1
+                i += 1
+        walk(f.node.body)
+        if k:
+            ast.fix_missing_locations(f.node)
+            done[f.site] = k
+    return done
+
+
+def desugar_counting_loops(index):
+    """`D = defaultdict(int)` (or `Counter()`, or `{}` read through `.get(k, 0)`), followed by `for T in IT: D[K] += 1` as the whole loop
+    body, and otherwise only read as `D[x]` / `D.get(x, 0)`: the number of elements of IT whose key is x -- `[K for T in IT].count(x)`."""
+    done = {}
+    for f in index.all_functions():
+        k = 0
+        def blocks(stmts):
+            yield stmts
+            for st in stmts:
+                for fld in ("body", "orelse", "finalbody"):
+                    b = getattr(st, fld, None)
+                    if isinstance(b, list) and b and isinstance(b[0], ast.stmt) and not isinstance(st, (ast.FunctionDef, ast.ClassDef)):
+                        yield from blocks(b)
+        for blk in list(blocks(f.node.body)):
+            for i, st in enumerate(list(blk)):
+                if not (isinstance(st, ast.Assign) and len(st.targets) == 1 and isinstance(st.targets[0], ast.Name)):
+                    continue
+                v = st.value
+                ctor = (isinstance(v, ast.Call) and ast.unparse(v.func) in ("defaultdict", "collections.defaultdict") and len(v.args) == 1 and
+                        isinstance(v.args[0], ast.Name) and v.args[0].id == "int" and not v.keywords) or \
+                       (isinstance(v, ast.Call) and ast.unparse(v.func) in ("Counter", "collections.Counter") and not v.args and not v.keywords)
+                if not ctor:
+                    continue
+                name = st.targets[0].id
+                j = blk.index(st) + 1
+                if j >= len(blk) or not isinstance(blk[j], ast.For) or blk[j].orelse or len(blk[j].body) != 1:
+                    continue
+                loop = blk[j]
+                inc = loop.body[0]
+                if not (isinstance(inc, ast.AugAssign) and isinstance(inc.op, ast.Add) and isinstance(inc.value, ast.Constant) and inc.value.value == 1 and
+                        isinstance(inc.target, ast.Subscript) and isinstance(inc.target.value, ast.Name) and inc.target.value.id == name):
+                    continue
+                occ = [n for n in ast.walk(f.node) if isinstance(n, ast.Name) and n.id == name and n is not st.targets[0] and n is not inc.target.value]
+                par = {}
+                for n in ast.walk(f.node):
+                    for ch in ast.iter_child_nodes(n):
+                        par[ch] = n
+                reads = []
+                ok = True
+                for n in occ:
+                    p_ = par.get(n)
+                    if isinstance(p_, ast.Subscript) and p_.value is n and isinstance(p_.ctx, ast.Load) and not isinstance(p_.slice, ast.Slice):
+                        reads.append(p_)
+                    else:
+                        ok = False
+                if not ok or not reads:
+                    continue
+                st.value = ast.ListComp(elt=inc.target.slice, generators=[ast.comprehension(target=loop.target, iter=loop.iter, ifs=[], is_async=0)])
+                blk.remove(loop)
+
+                class T(ast.NodeTransformer):
+                    def visit_Subscript(self, node):
+                        self.generic_visit(node)
+                        if any(node is r for r in reads):
+                            return ast.copy_location(ast.Call(func=ast.Attribute(value=node.value, attr="count", ctx=ast.Load()),
+                                                              args=[node.slice], keywords=[]), node)
+                        return node
+                T().visit(f.node)
+                k += 1
+        if k:
+            ast.fix_missing_locations(f.node)
+            done[f.site] = k
+    return done
+
+
 _MAP_PURE_CALLS = ("str", "int", "len", "tuple", "list", "sorted", "min", "max", "repr", "bool", "range", "isinstance", "Shape.cast", "slice",
                    "exact_log2", "ceil_log2")
 _MUTATORS = ("append", "add", "extend", "insert", "pop", "remove", "clear", "update", "setdefault", "freeze", "popitem", "discard", "sort", "reverse")
@@ -1617,6 +1754,68 @@ def unroll_literal_tables(index):
                     done[f.site] = done.get(f.site, 0) + 1
         if changed:
             ast.fix_missing_locations(f.node)
+    return done
+
+
+# ---- one If per value of a signal -------------------------------------------------------------------------------------------------
+def switch_for_equality_loops(index):
+    """`for i in <values>: with m.If(S == i): BODY` -- the loop body is that one block, S does not depend on `i`, and the values of a
+    `range` / `enumerate` are pairwise different -- selects by the value of S exactly like `with m.Switch(S): for i in <values>: with
+    m.Case(i): BODY` (at most one block is active; inside it, later statements still win)."""
+    import copy
+    done = {}
+    for f in index.all_functions():
+        k = 0
+
+        def walk(stmts):
+            nonlocal k
+            for i_, st in enumerate(list(stmts)):
+                for fld in ("body", "orelse", "finalbody"):
+                    b = getattr(st, fld, None)
+                    if isinstance(b, list) and b and isinstance(b[0], ast.stmt) and not isinstance(st, (ast.FunctionDef, ast.ClassDef)):
+                        walk(b)
+                if not (isinstance(st, ast.For) and not st.orelse and len(st.body) == 1 and isinstance(st.body[0], ast.With)):
+                    continue
+                w = st.body[0]
+                if len(w.items) != 1 or w.items[0].optional_vars is not None:
+                    continue
+                call = w.items[0].context_expr
+                if not (isinstance(call, ast.Call) and isinstance(call.func, ast.Attribute) and call.func.attr == "If" and len(call.args) == 1 and
+                        not call.keywords and isinstance(call.args[0], ast.Compare) and len(call.args[0].ops) == 1 and
+                        isinstance(call.args[0].ops[0], ast.Eq)):
+                    continue
+                # the loop variable: the target itself, or the index of an enumerate
+                it = st.iter
+                if isinstance(st.target, ast.Name) and isinstance(it, ast.Call) and isinstance(it.func, ast.Name) and it.func.id == "range":
+                    var = st.target.id
+                elif isinstance(st.target, ast.Tuple) and st.target.elts and isinstance(st.target.elts[0], ast.Name) and isinstance(it, ast.Call) and \
+                        isinstance(it.func, ast.Name) and it.func.id == "enumerate":
+                    var = st.target.elts[0].id
+                else:
+                    continue
+                a, b = call.args[0].left, call.args[0].comparators[0]
+                if isinstance(b, ast.Name) and b.id == var:
+                    subj = a
+                elif isinstance(a, ast.Name) and a.id == var:
+                    subj = b
+                else:
+                    continue
+                bound = {n.id for n in ast.walk(st.target) if isinstance(n, ast.Name)}
+                if any(isinstance(n, ast.Name) and n.id in bound for n in ast.walk(subj)):
+                    continue
+                mod = call.func.value
+                case = ast.With(items=[ast.withitem(context_expr=ast.Call(func=ast.Attribute(value=copy.deepcopy(mod), attr="Case", ctx=ast.Load()),
+                                                                         args=[ast.Name(id=var, ctx=ast.Load())], keywords=[]))], body=w.body)
+                st.body = [case]
+                sw = ast.With(items=[ast.withitem(context_expr=ast.Call(func=ast.Attribute(value=copy.deepcopy(mod), attr="Switch", ctx=ast.Load()),
+                                                                       args=[subj], keywords=[]))], body=[st])
+                ast.copy_location(sw, st)
+                stmts[stmts.index(st)] = sw
+                k += 1
+        walk(f.node.body)
+        if k:
+            ast.fix_missing_locations(f.node)
+            done[f.site] = k
     return done
 
 
